@@ -186,6 +186,36 @@ pub fn campaigns(ctx: &Ctx) -> Stats {
         };
         Some(FwdCase { op: op_of((i % 4) as usize), leaves: vec![LeafSpec { dims: vec![2, 2], vals: va, tracked: false }, LeafSpec { dims: vec![2], vals: vb[..2].to_vec(), tracked: false }], force_exact: None, second_is_view_of_first: None })
     }));
+    // operands of very different magnitudes (per operand and per element), full mantissas
+    {
+        let pairs: Vec<(Vec<usize>, Vec<usize>)> = vec![(vec![5], vec![5]), (vec![2, 3], vec![3]), (vec![3, 1], vec![1, 4]), (vec![2, 1, 3], vec![4, 1]), (vec![7], vec![1]), (vec![2, 2, 2], vec![2, 1, 2]), (vec![33], vec![33])];
+        let np = pairs.len() as u64;
+        let (lin, mul, jit) = wide_exps();
+        st.merge(ctx.run_indexed("wide-magnitudes", np * NOPS * ctx.tier.pick(240, 4000), None, |i| {
+            let opi = (i % NOPS) as usize;
+            let (a, b) = &pairs[((i / NOPS) % np) as usize];
+            let z = mix(i ^ 0xC04 ^ ctx.seed.wrapping_mul(0x9E3779B1));
+            let max = if matches!(opi, 2 | 3) { mul } else { lin };
+            let (ba, bb) = (pick_base(z as u8, max), pick_base((z >> 8) as u8, max));
+            let (ja, jb) = (if (z >> 16) & 1 == 0 { 0 } else { jit }, if (z >> 17) & 1 == 0 { 0 } else { jit });
+            let (a, b) = if (z >> 18) & 1 == 0 { (a.clone(), b.clone()) } else { (b.clone(), a.clone()) };
+            Some(FwdCase { op: op_of(opi), leaves: vec![LeafSpec { dims: a.clone(), vals: wide_vals(z, numel(&a), ba, ja, true), tracked: (z >> 19) & 1 == 1 }, LeafSpec { dims: b.clone(), vals: wide_vals(z ^ 9, numel(&b), bb, jb, true), tracked: false }], force_exact: None, second_is_view_of_first: None })
+        }));
+    }
+    // element counts beyond 2^16 (index arithmetic in narrow integer types)
+    {
+        let pairs: Vec<(Vec<usize>, Vec<usize>)> = vec![(vec![70001], vec![70001]), (vec![70001], vec![1]), (vec![1], vec![66000]), (vec![300, 300], vec![300, 1]), (vec![2, 40000], vec![40000]), (vec![257, 1], vec![1, 257]), (vec![3, 256, 256], vec![256, 1]), (vec![66000, 2], vec![2])];
+        let np = pairs.len() as u64;
+        st.merge(ctx.run_indexed("more-than-65536-elements", np * 4, None, |i| {
+            let (a, b) = &pairs[(i % np) as usize];
+            let opi = (i / np) as usize;
+            let mut c = exact_case(opi, a, b);
+            // exact data that still tells positions apart: position modulo a prime, and a few powers of two
+            c.leaves[0].vals = (0..numel(a)).map(|k| (k % 8191 + 1) as f64).collect();
+            c.leaves[1].vals = if matches!(opi, 2 | 3) { (0..numel(b)).map(|k| 2f64.powi((k % 11) as i32 - 5)).collect() } else { (0..numel(b)).map(|k| ((k % 127) * 8192) as f64).collect() };
+            Some(c)
+        }));
+    }
     {
         let nb = BOUNDARY_SIZES.len() as u64;
         st.merge(ctx.run_indexed("boundary-sizes", nb * NOPS * 4, None, |i| {
